@@ -977,6 +977,23 @@ def numnorm(t):
     return t
 
 
+def strip_int_conversions(t):
+    """the integer under value-preserving-or-panicking conversions: `x as uN`,
+    `uN::try_from(x).unwrap() / .expect(..)`, `uN::from(x)` / `x.into()` between integers.
+    (`as` may truncate: callers use this where the value is compared as an index / position
+    whose width they decide separately.)"""
+    while True:
+        t = strip(t)
+        if t[0] == "cast" and t[1] == "IntToInt":
+            t = t[2]
+        elif is_call(t) and t[1] in UNWRAP and t[2] and is_call(strip(t[2][0])) and "TryFrom<" in strip(t[2][0])[1] and strip(t[2][0])[1].endswith("::try_from") and strip(t[2][0])[1].split(" for ")[-1].split(">")[0] in ("u8", "u16", "u32", "u64", "usize"):
+            t = strip(t[2][0])[2][0]
+        elif is_call(t) and len(t[2]) == 1 and (t[1].startswith("std::convert::num::<impl std::convert::From<u") or t[1].startswith("core::convert::num::<impl std::convert::From<u")):
+            t = t[2][0]
+        else:
+            return t
+
+
 # --------------------------------------------------------------------------- for-loops
 
 def for_loops(ctx, se):
@@ -1368,9 +1385,25 @@ def resolve_locals(se, bb, t):
     """replace places of the enclosing function that a closure captured by reference
     (("local", n) left over after stripping the reference) by their value at block bb"""
     st = se.in_state.get(bb, {})
+    # what the block's own statements assign before its terminator (`let h = payload; &h == p`
+    # inside one match arm) comes after the state at block entry
+    here = {}
+    for (bi, si), (loc, v) in sorted(se.assigns.items()):
+        if bi != bb:
+            continue
+        if loc[0] == "local":
+            here[loc] = v
+        else:
+            root = loc
+            while root[0] in ("field", "index", "cindex", "subslice", "downcast"):
+                root = root[1]
+            if root[0] == "local":
+                here[root] = ("unknown", "partly overwritten in bb%d" % bb)
 
     def f(x):
         if x[0] == "local":
+            if x in here:
+                return strip(here[x])
             return strip(se.read(st, x))
         if x[0] == "phi":
             return x                 # the ("local", n) inside a phi names the phi, it is not a place
@@ -1409,6 +1442,7 @@ class Refile:
 
     def __init__(self, rep, rule, keep_rules=None, fn_pred=None):
         self.rep, self.rule, self.keep, self.fn_pred = rep, rule, keep_rules, fn_pred
+        self.stats = {}
 
     def _take(self, rule, fn):
         if self.keep is not None and rule not in self.keep:
